@@ -510,7 +510,11 @@ def check(case):
                 continue                                 # nothing left to cover: outside the domain of the width clause
             if i % 2:
                 g.get_width()                            # an unrestricted call in between; its cached value must not leak
-            got.append(g.get_width([_el(x) for x in ign] + ss))
+            try:
+                got.append(g.get_width([_el(x) for x in ign] + ss))
+            except Exception as e:          # a library exception on an in-domain ignore set is a failure of the width clause
+                return dict(ok=False, nontrivial=True, fingerprint="%s.get_width raises when called repeatedly on one object with in-domain ignore sets" % stname,
+                            what="%s: %s after ignore sets %s, now %s; %s" % (type(e).__name__, e, asked, ign, _inst(case)))
             exp.append(o[0])
             asked.append(ign)
         if got != exp:
@@ -522,9 +526,12 @@ def check(case):
         cls = fp.stDiGraph if case["cyc"] else fp.stDAG
         g = cls(G, additional_starts=list(case["starts"]), additional_ends=list(case["ends"]))
         arg = [_el(x) for x in case["ignore"]] + list(g.source_sink_edges)
-        w1 = g.get_width(list(arg))
-        g.get_width()                                   # fills the cache of the unrestricted width; must not leak into the next call
-        w2 = g.get_width(list(arg))
+        try:
+            w1 = g.get_width(list(arg))
+            g.get_width()                                   # fills the cache of the unrestricted width; must not leak into the next call
+            w2 = g.get_width(list(arg))
+        except Exception as e:
+            return dict(ok=False, nontrivial=True, fingerprint="%s.get_width raises on an in-domain ignore set" % stname, what="%s: %s; %s" % (type(e).__name__, e, _inst(case)))
         if w1 != opt or w2 != opt:
             return dict(ok=False, nontrivial=True, fingerprint="%s.get_width(ignored + source/sink edges) differs from the minimum %s cover size" % (stname, rt),
                         what="get_width = %s (again after an unrestricted call: %s), oracle %s; %s" % (w1, w2, opt, _inst(case)), detail=dict(width=[w1, w2], oracle=opt))
